@@ -71,12 +71,13 @@ Definition err_class (a : ans) : ans :=
   | _ => a
   end.
 
+(* `leak` = the harness saw a forwarded lookup still blocked after the memoizer had returned: never, since fix F23 *)
 Definition r_agrees (c : rcase) : bool :=
   match c with
   | (ops, obs, leak, lg) =>
       match r_memo_run_c (mkM lg []) ops with
-      | (st, out, lk) =>
-          list_eqb ans_eqb (map err_class out) obs && Bool.eqb lk leak &&
+      | (st, out) =>
+          list_eqb ans_eqb (map err_class out) obs && negb leak &&
           match m_inner st with [] => true | _ => false end
       end
   end.
@@ -90,8 +91,8 @@ Fixpoint mismatches_from {A : Type} (f : A -> bool) (i : N) (l : list A) : list 
 Definition r_mismatches (l : list rcase) : list N := mismatches_from r_agrees 0 l.
 
 (* what the model returns on a case (for diagnostics) *)
-Definition r_model (c : rcase) : list ans * bool :=
-  match c with (ops, _, _, lg) => let '(_, out, lk) := r_memo_run_c (mkM lg []) ops in (out, lk) end.
+Definition r_model (c : rcase) : list ans :=
+  match c with (ops, _, _, lg) => snd (r_memo_run_c (mkM lg []) ops) end.
 
 (* LookupOptions.String(): observed text vs options_key; and the renderings are well formed (domain of C19_offset) *)
 Definition lo_agrees (p : lopts * str) : bool := str_eqb (options_key (fst p)) (snd p) && lo_wf (fst p).
